@@ -1214,7 +1214,7 @@ class CWLRunCrateProvenanceManager(RunCrateProvenanceManager):
                 version=cast(str, cwl_workflow.cwlVersion),
             )
         # Connect output sources
-        workflow_inputs = [inp["@id"] for inp in jsonld_workflow.get("output", [])]
+        workflow_inputs = [inp["@id"] for inp in jsonld_workflow.get("input", [])]
         for cwl_output in cwl_workflow.outputs or []:
             if source := cwl_output.outputSource:
                 connection = self._get_connection(
@@ -1455,7 +1455,7 @@ class CWLRunCrateProvenanceManager(RunCrateProvenanceManager):
                 version=self.cwl_definition.cwlVersion,
             )
             # Connect output sources
-            workflow_inputs = [inp["@id"] for inp in main_entity.get("output", [])]
+            workflow_inputs = [inp["@id"] for inp in main_entity.get("input", [])]
             for cwl_output in self.cwl_definition.outputs or []:
                 if source := cwl_output.outputSource:
                     connection = self._get_connection(
